@@ -8,9 +8,19 @@
                                               relational pool; the choice written in a client label is ignored and
                                               computed by heap.Pop), plus heapU=<len> heapR=<len>
    broker heap <ops>                       -> Model/BrokerHeap.v xstep on an empty SnowflakeHeap, one segment per op:
-                                              <returned id|->/<slice: id:clients:index ...>/<left the heap: id:index ...> *)
+                                              <returned id|->/<slice: id:clients:index ...>/<left the heap: id:index ...>
+   broker heapz <ops>                      -> the same with SIGNED client counts of Go's int range (written in decimal, "-8");
+                                              the model runs on emb c = c + 2^63 (Model/BrokerHeap.v) and prints unemb
+   broker bload <lines>                    -> Model/BrokerBridgeList.v load: "ok <f>=<u>;..." (map order of the model; the
+                                              glue sorts) or "err". <lines>: ";"-separated ("-" = empty file), a line is
+                                              x (not a JSON object) | e (the empty object) | "."-separated members
+                                              <key><value>: key n=displayName a=webSocketAddress f=fingerprint (hex of 20
+                                              bytes) g=fingerprint (any other string) u=unknown member;
+                                              value s<tag> (string) | z (null) | o (other JSON type)
+   label J:<lines> in run/irun             -> LoadBridgeInfo of a FILE in the middle of a run: L_Install (load lines) when
+                                              the load succeeds, no step at all when it fails (the old list stays) *)
 From Coq Require Import List NArith ZArith Bool Arith String.
-From Snow Require Import Lib.Wire Model.Broker Model.BrokerHeap Model.BrokerImpl.
+From Snow Require Import Lib.Wire Model.Broker Model.BrokerHeap Model.BrokerImpl Model.BrokerBridgeList.
 Import ListNotations.
 Open Scope N_scope.
 
@@ -29,6 +39,25 @@ Definition bridge_parse (t : bytes) : option (fpr * url) :=
   | [a; b] => opt_bind (dec_parse a) (fun f => opt_bind (dec_parse b) (fun u => Some (f, u)))
   | _ => None
   end.
+
+Definition member_parse (t : bytes) : option (jkey * jv) :=
+  match t with
+  | k :: v :: rest =>
+      opt_bind (if k =? 110 then Some KName else if k =? 97 then Some KAddr else if k =? 102 then Some (KFp true)
+                else if k =? 103 then Some (KFp false) else if k =? 117 then Some KUnknown else None) (fun key =>
+      if v =? 115 then opt_bind (dec_parse rest) (fun s => Some (key, JStr s))
+      else match rest with
+           | [] => if v =? 122 then Some (key, JNull) else if v =? 111 then Some (key, JOther) else None
+           | _ => None
+           end)
+  | _ => None
+  end.
+Definition jline_parse (t : bytes) : option jline :=
+  if beq t (bs "x") then Some None
+  else if beq t (bs "e") then Some (Some [])
+  else option_map Some (map_opt member_parse (split_on DOT t)).
+Definition jlines_parse (t : bytes) : option (list jline) :=
+  if beq t (bs "-") then Some [] else map_opt jline_parse (split_on SEMI t).
 
 Definition label_parse (t : bytes) : option label :=
   match split_on COLON t with
@@ -66,6 +95,18 @@ Definition label_parse (t : bytes) : option label :=
       else None
   | _ => None
   end.
+
+(* a label token stands for one label, or (J) for the outcome of loading a bridge-list file: one L_Install or nothing *)
+Definition labels_parse (t : bytes) : option (list label) :=
+  match split_on COLON t with
+  | [k; a] =>
+      if beq k (bs "J") then
+        option_map (fun ls => match load ls with Some m => [L_Install m] | None => [] end) (jlines_parse a)
+      else option_map (fun l => [l]) (label_parse t)
+  | _ => option_map (fun l => [l]) (label_parse t)
+  end.
+Definition all_labels_parse (ls : bytes) : option (list label) :=
+  option_map (@List.concat label) (list_parse labels_parse ls).
 
 Definition presp_print (r : presp) : bytes :=
   match r with
@@ -118,18 +159,37 @@ Definition hop_parse (t : bytes) : option hop :=
   | _ => None
   end.
 
+Definition zload_parse (t : bytes) : option N :=
+  opt_bind (zdec_parse t) (fun z => if int64_range z then Some (emb z) else None).
+Definition zhop_parse (t : bytes) : option hop :=
+  match split_on COLON t with
+  | [k; a; b] =>
+      if beq k (bs "f") then opt_bind (dec_parse_nat a) (fun i => opt_bind (zload_parse b) (fun c => Some (HFix i c)))
+      else None
+  | [k; a; b; _] =>
+      if beq k (bs "u") then opt_bind (dec_parse_nat a) (fun i => opt_bind (zload_parse b) (fun c => Some (HPush (i, c))))
+      else None
+  | _ => hop_parse t
+  end.
+
 Definition dash_if_empty (l : list bytes) : bytes := match l with [] => bs "-" | _ => join [DOT] l end.
 
-Definition sheap_print (ret : option sfx) (h : sheap) : bytes :=
+Definition sheap_print (pl : N -> bytes) (ret : option sfx) (h : sheap) : bytes :=
   (match ret with Some x => dec_print (N.of_nat (x_id x)) | None => bs "-" end)
-  ++ bs "/" ++ dash_if_empty (map (fun x => dec_print (N.of_nat (x_id x)) ++ [COLON] ++ dec_print (snd (x_el x))
+  ++ bs "/" ++ dash_if_empty (map (fun x => dec_print (N.of_nat (x_id x)) ++ [COLON] ++ pl (snd (x_el x))
                                           ++ [COLON] ++ zdec_print (x_idx x)) (h_arr h))
   ++ bs "/" ++ dash_if_empty (map (fun x => dec_print (N.of_nat (x_id x)) ++ [COLON] ++ zdec_print (x_idx x)) (h_out h)).
 
-Fixpoint heap_script (ops : list hop) (h : sheap) : list bytes :=
+Fixpoint heap_script (pl : N -> bytes) (ops : list hop) (h : sheap) : list bytes :=
   match ops with
   | [] => []
-  | o :: r => let '(h', ret) := xstep h o in sheap_print ret h' :: heap_script r h'
+  | o :: r => let '(h', ret) := xstep h o in sheap_print pl ret h' :: heap_script pl r h'
+  end.
+
+Definition bmap_print (m : list (fpr * url)) : bytes :=
+  match m with
+  | [] => bs "ok -"
+  | _ => bs "ok " ++ join [SEMI] (map (fun '(f, u) => dec_print f ++ bs "=" ++ dec_print u) m)
   end.
 
 Definition run (args : list bytes) : bytes :=
@@ -137,7 +197,17 @@ Definition run (args : list bytes) : bytes :=
   | [op; ops] =>
       if beq op (bs "heap") then
         match list_parse hop_parse ops with
-        | Some hs => join [SP] (heap_script hs sheap_empty)
+        | Some hs => join [SP] (heap_script dec_print hs sheap_empty)
+        | None => ERR_BADCASE
+        end
+      else if beq op (bs "heapz") then
+        match list_parse zhop_parse ops with
+        | Some hs => join [SP] (heap_script (fun n => zdec_print (unemb n)) hs sheap_empty)
+        | None => ERR_BADCASE
+        end
+      else if beq op (bs "bload") then
+        match jlines_parse ops with
+        | Some ls => match load ls with Some m => bmap_print m | None => bs "err" end
         | None => ERR_BADCASE
         end
       else ERR_BADCASE
@@ -145,7 +215,7 @@ Definition run (args : list bytes) : bytes :=
       if beq op (bs "run") then
         match (if beq v (bs "v0") then Some V0 else if beq v (bs "v1") then Some V1 else None),
               (if beq br (bs "-") then Some [] else option_map (fun b => [L_Install b]) (list_parse bridge_parse br)),
-              list_parse label_parse ls with
+              all_labels_parse ls with
         | Some ver, Some inst, Some labels =>
             match run_idx ver (init builtin_bridges) (inst ++ labels) 0 with
             | inl s => obs_print s
@@ -156,7 +226,7 @@ Definition run (args : list bytes) : bytes :=
       else if beq op (bs "irun") then
         match (if beq v (bs "v0") then Some V0 else if beq v (bs "v1") then Some V1 else None),
               (if beq br (bs "-") then Some [] else option_map (fun b => [L_Install b]) (list_parse bridge_parse br)),
-              list_parse label_parse ls with
+              all_labels_parse ls with
         | Some ver, Some inst, Some labels =>
             match irun_idx ver (iinit builtin_bridges) (inst ++ labels) 0 with
             | inl st => obs_print (i_s st) ++ bs " heapU=" ++ dec_print (N.of_nat (List.length (h_arr (i_hu st))))
